@@ -35,7 +35,7 @@ COMPONENTS = ["includes"]
 TARGETS = []
 RULE = ("include trees cut out of generated Mapfiles at block / keyword-line boundaries (fan-out <= 4, depth 0..7, nested sub-directories, relative / "
         "./ / dir/../ / absolute / double-slash names, double-quoted / single-quoted / bare names, keyword case, trailing comments, LF / CRLF), plus "
-        "cycles, missing files, a systematic depth-chain family 0..7, and correspondence-only dirty trees; loaded through open (absolute and relative "
+        "cycles, missing files, a systematic depth-chain family 0..7, histories in one process at the same absolute paths (included files rewritten with other content / nesting, deleted, a different tree under the same names; fresh API calls and a reused Parser), and correspondence-only dirty trees; loaded through open (absolute and relative "
         "root name), load (named file object, StringIO) and loads from differing working directories. non-trivial = the root text reaches at least one "
         "INCLUDE line; distinct by hash of (files, root, cwd, mode). Pure helpers: all path strings over {/ . a b} up to length 6 (7 thorough), all "
         "directive lines of up to 4 (5 thorough) pieces over a 15-piece alphabet.")
@@ -272,10 +272,10 @@ class Tree:
         return copy.deepcopy(self)
 
 
-def gen_tree(rng, depth, kind="ok", allowed=None, feature=None):
+def gen_tree(rng, depth, kind="ok", allowed=None, feature=None, root_dir=None):
     """Cut a generated document into an include tree whose longest chain has `depth` files below the root."""
     t = Tree()
-    t.root_dir = rng.choice(["proj", "proj/maps", "w1/w2/w3"])
+    t.root_dir = root_dir or rng.choice(["proj", "proj/maps", "w1/w2/w3"])
     used = set()
 
     def new_path(i):
@@ -596,6 +596,24 @@ class Impl:
         except Exception as ex:
             return ("exc", exc_class(ex))
 
+    def reused(self, mode, root, text, name, expand=True):
+        """ONE long-lived Parser object (what a caller that keeps a Parser around does): parse_file / load / parse."""
+        from mappyfile.transformer import MapfileToDict
+        p = self.parser
+        try:
+            if mode == 0:
+                tree = p.parse_file(root)
+            elif mode == 1:
+                fp = io.StringIO(text)
+                if name is not None:
+                    fp.name = name
+                tree = p.load(fp)
+            else:
+                tree = p.parse(text)
+            return ("ok", json.dumps(MapfileToDict().transform(tree), sort_keys=False, default=str))
+        except Exception as ex:
+            return ("exc", exc_class(ex))
+
     def api(self, mode, root, text, name, expand=True):
         """The real public API, nothing swapped."""
         mf = self.mappyfile
@@ -799,6 +817,138 @@ def check_files(impl, files, root_rel, cfg_rel, fast=False):
         ref = call(2, None, exp[1], None) if exp[0] == "ok" else None
         got = call(mode, root_arg, arg_text, name)
         return judge(impl, exp, got, ref), exp, got
+
+
+# ---------------------------------------------------------------------------
+# histories: the same absolute paths, one process, the files change between loads
+# ---------------------------------------------------------------------------
+def bump_digits(s):
+    return re.sub(r"\d", lambda m: str((int(m.group(0)) + 3) % 10), s)
+
+
+def rewrite_tree(rng, t):
+    """Same root file, same paths; one or more INCLUDED files get different content and a different nesting."""
+    c = t.clone()
+    live = sorted(i for i in reachable(c) if i != 0 and not c.files[i]["ghost"])
+    if not live:
+        return c
+    for fi in rng.sample(live, rng.randint(1, min(3, len(live)))):
+        f = c.files[fi]
+
+        def bump(nodes):
+            for n in nodes:
+                if n[0] == "line":
+                    n[1] = bump_digits(n[1])
+                elif n[0] == "block":
+                    bump(n[2])
+        bump(f["nodes"])
+        conts = containers(f["nodes"], "X", None, [])
+        incs = [(cont, ni) for cont in conts for ni, n in enumerate(cont) if n[0] == "inc"]
+        r = rng.random()
+        if incs and r < 0.45:
+            # less nesting: inline one include
+            cont, ni = rng.choice(incs)
+            child = c.files[cont[ni][1]]
+            if not child["ghost"] and cont[ni][1] not in (0, fi):
+                cont[ni:ni + 1] = copy.deepcopy(child["nodes"])
+        elif r < 0.9:
+            # more nesting: cut a run of this file out into a new file
+            cs = [x for x in conts if runs(x)]
+            if cs:
+                cont = rng.choice(cs)
+                i, j = rng.choice(runs(cont))
+                a = rng.randrange(i, j)
+                b = rng.randrange(a + 1, j + 1)
+                path = os.path.normpath(os.path.join(c.root_dir, rng.choice(DIRS), "extra%d_%d.map" % (fi, len(c.files))))
+                c.files.append({"path": path, "nodes": cont[a:b], "nl": "\n", "final_nl": True, "ghost": False})
+                cont[a:b] = [["inc", len(c.files) - 1, gen_style(rng)]]
+                st = cont[a][2]
+                if st["quote"] == "" and st["form"] in ("abs", "dslash"):
+                    st["quote"] = '"'
+        if not f["nodes"]:
+            f["nodes"] = [L("STATUS OFF")]
+    return c
+
+
+def replace_tree(rng, t):
+    """A completely different tree written under the SAME directory and file names."""
+    t2 = gen_tree(rng, rng.choice([1, 2, 3, 4]), root_dir=t.root_dir)
+    old_paths = [f["path"] for f in t.files[1:] if not f["ghost"]]
+    rng.shuffle(old_paths)
+    taken = {t2.files[0]["path"]}
+    for i, f in enumerate(t2.files[1:]):
+        p = old_paths[i] if i < len(old_paths) else f["path"]
+        while p in taken:
+            p += "y"
+        taken.add(p)
+        f["path"] = p
+    for f in t2.files:
+        for n in iter_incs(f["nodes"]):
+            if n[2]["quote"] == "" and not re.fullmatch(r"[A-Za-z0-9_./-]+", t2.files[n[1]]["path"]):
+                n[2]["quote"] = '"'
+    return t2
+
+
+def clear_files(tmp):
+    for dp, dn, fnames in os.walk(tmp):
+        for n in fnames:
+            os.remove(os.path.join(dp, n))
+
+
+def history_step(impl, files, deleted, tmp, root_rel, cfg, channels):
+    """(Re)write the scratch tree in place and load it through every channel. -> (verdict or None, channel, oracle result)"""
+    clear_files(tmp)
+    materialise(files, tmp)
+    for d in deleted:
+        p = os.path.join(tmp, d)
+        if os.path.exists(p):
+            os.remove(p)
+    kind, mode, cwd, root_arg, name = cfg
+    os.chdir(cwd)
+    text, base = expected_for(files, tmp, root_rel, kind, cwd)
+    with io.open(os.path.join(tmp, root_rel), "r", encoding="utf-8", newline="" if kind == "loads" else None) as f:
+        arg_text = f.read()
+    exp = oracle(text, base)
+    for ch in channels:
+        call = getattr(impl, ch)
+        ref = call(2, None, exp[1], None) if exp[0] == "ok" else None
+        got = call(mode, root_arg, arg_text, name)
+        v = judge(impl, exp, got, ref)
+        if v is not None:
+            return v, ch, exp
+    return None, None, exp
+
+
+def run_history(impl, steps, root_rel, cfg_rel, channels):
+    """steps = [(label, files, deleted)] replayed in ONE scratch directory (same absolute paths) and one process.
+    -> (index of the first violated step, verdict, channel) or None"""
+    with Scratch() as sc:
+        cfg = abs_cfg(cfg_rel, sc.tmp)
+        for i, (label, files, deleted) in enumerate(steps):
+            v, ch, exp = history_step(impl, files, deleted, sc.tmp, root_rel, cfg, channels)
+            if v is not None:
+                return i, v, ch
+    return None
+
+
+def gen_history(rng):
+    """T1 -> rewritten included files -> one included file deleted -> a different tree at the same names (order varies)."""
+    t1 = gen_tree(rng, rng.choice([1, 2, 2, 3, 4]))
+    steps = [("initial", render(t1), [])]
+    cur = t1
+    for label in rng.choice([["rewrite", "delete", "replace-tree"], ["rewrite", "rewrite", "delete"], ["delete", "replace-tree", "rewrite"],
+                             ["replace-tree", "rewrite", "delete"], ["rewrite", "replace-tree", "rewrite"]]):
+        if label == "rewrite":
+            cur = rewrite_tree(rng, cur)
+            steps.append((label, render(cur), []))
+        elif label == "replace-tree":
+            cur = replace_tree(rng, cur)
+            steps.append((label, render(cur), []))
+        else:
+            files = render(cur)
+            victims = [p for p in files if p != cur.files[0]["path"]]
+            steps.append((label, files, [rng.choice(victims)] if victims else []))
+    return t1, steps
 
 
 # ---------------------------------------------------------------------------
@@ -1058,6 +1208,39 @@ def _run(ctx):
     ctx.count("trees", len(trees))
     ctx.count("hunter_failing_configurations", n_viol)
     ctx.count("public_api_calls_unpatched", stats.get("api_calls", 0))
+
+    # ---- 1b. histories at the same absolute paths in this one process (a result must depend on the files as they
+    #          are NOW): fresh module-level calls, one reused Parser object, and the unpatched API for a sample
+    n_hist = ctx.budget(14, 250)
+    n_hist_api = ctx.budget(2, 25)
+    hist_steps = {}
+    for hi in range(n_hist):
+        t1, steps = gen_history(rng)
+        with Scratch() as sc0:
+            cfg_rel = rel_cfg(configs(rng, t1, sc0.tmp, 1)[0], sc0.tmp)
+        channels = ["fast", "reused"] + (["api"] if hi < n_hist_api else [])
+        for lbl, _, _ in steps[1:]:
+            hist_steps[lbl] = hist_steps.get(lbl, 0) + 1
+        ctx.note_case("history:" + json.dumps([steps, cfg_rel], sort_keys=True), nontrivial=True)
+        r = run_history(impl, steps, t1.files[0]["path"], cfg_rel, channels)
+        if r is not None:
+            i, v, ch = r
+            # shortest prefix-free form: the step before the failing one and the failing one
+            small = steps[:i + 1]
+            for cand in ([steps[i - 1], steps[i]] if i >= 1 else []), :
+                if cand and run_history(impl, cand, t1.files[0]["path"], cfg_rel, [ch]) is not None:
+                    small = cand
+            first_alone = run_history(impl, [steps[i]], t1.files[0]["path"], cfg_rel, [ch])
+            if first_alone is not None:
+                # fails without any history: an ordinary tree violation
+                report(ctx, v[0], set(), v[1] + " [%s]" % cfg_rel[0], {"kind": "tree", "files": steps[i][1], "root": t1.files[0]["path"], "cfg": cfg_rel})
+            else:
+                ctx.violation("history:%s:%s" % (steps[i][0], v[0]),
+                              "after the files changed at the same absolute paths (%s), loading again in the same process through %s: %s"
+                              % (steps[i][0], {"fast": "fresh open/load/loads calls", "reused": "a reused Parser object", "api": "the public API"}[ch], v[1]),
+                              {"kind": "history", "steps": [[a, b, c] for a, b, c in small], "root": t1.files[0]["path"], "cfg": cfg_rel, "channel": ch})
+    ctx.count("history_cases", n_hist)
+    ctx.coverage["history_step_histogram"] = hist_steps
 
     # ---- 2. expand_includes=False
     n_noexp = ctx.budget(40, 600)
@@ -1337,6 +1520,11 @@ def replay(ctx, body):
             bad = noexpand_text_check(impl, r["root_text"], r.get("front", 2))
             print("replay: expand_includes=False directives", "NOT written back unchanged" if bad else "written back unchanged")
             return 1 if bad else 0
+        if r.get("kind") == "history":
+            res = run_history(impl, [tuple(x) for x in r["steps"]], r["root"], r["cfg"], ["api", "reused"])
+            print("replay: history of %d loads at the same paths ->" % len(r["steps"]),
+                  "VIOLATION at step %d (%s) via %s: %s" % (res[0], r["steps"][res[0]][0], res[2], res[1][0]) if res else "property holds at every step")
+            return 1 if res else 0
         if "cfg" in r:
             v, exp, got = check_files(impl, r["files"], r["root"], r["cfg"])
             print("replay: oracle %r, implementation %r ->" % (trunc(exp), trunc(got)), "VIOLATION %s" % v[0] if v else "property holds")
